@@ -1,0 +1,30 @@
+// +build verif
+
+package gossip
+
+// Contracts for the verifier in /verif (comment-only; see /verif/DESIGN.md).
+
+/*@
+// the services of an agent are fixed when it is built
+immutable Agent.Qed by SetQEDClient.$1
+immutable Agent.Notifier by SetNotifier.$1
+immutable Agent.SnapshotStore by SetSnapshotStore.$1
+immutable Agent.Cache by SetCache.$1
+immutable Agent.Tasks by SetTasksManager.$1
+
+// ---- services an agent talks to (interfaces): what a call is, as ghost bookkeeping ----
+
+func Notifier.Alert
+  modifies alerts
+  assumes alerts == old(alerts) + 1
+
+func SnapshotStore.GetSnapshot
+  modifies everything
+func SnapshotStore.PutBatch
+  modifies everything, putBatches
+  assumes putBatches == old(putBatches) + 1
+
+func Cache.Get
+func Cache.Set
+  modifies everything
+@*/
